@@ -10,6 +10,8 @@ from sa.engine import Engine, split_conj, cmp_atom, is_none_const
 from sa.loader import FuncInfo, ClassInfo, AnalysisError
 from sa.report import Check
 from sa.cfg import Node, handler_type_names
+from sa import pattern as pat
+from sa.pattern import find as pfind, has as phas, first as pfirst
 
 CONN = 'network/connection.py'
 NET = 'network/network.py'
@@ -115,6 +117,25 @@ def const_value(repo, mod, name: str):
     return None
 
 
+def cval(repo, fn: FuncInfo, e: Optional[ast.AST]):
+    """Python constant denoted by `e`: a literal, or a module-level NAME = literal of fn's module (or imported from a repo module)."""
+    v = const(e)
+    if v is not None or e is None:
+        return v
+    if isinstance(e, ast.Name):
+        d = const_value(repo, fn.module, e.id)
+        if d is not None:
+            return const(d)
+        imp = fn.module.imports.get(e.id)
+        if imp and ':' in imp:
+            dotted, orig = imp.split(':')
+            for m in repo.modules.values():
+                if m.dotted == dotted:
+                    d = const_value(repo, m, orig)
+                    return const(d) if d is not None else None
+    return None
+
+
 def single_assignments(fn: FuncInfo) -> dict[str, ast.AST]:
     """local name -> value for names assigned exactly once by a plain `x = value`
     (or walrus) in the function and never re-bound otherwise."""
@@ -156,6 +177,16 @@ def single_assignments(fn: FuncInfo) -> dict[str, ast.AST]:
             counts[n.name] = counts.get(n.name, 0) + 2
     for p in fn.params:
         counts[p] = counts.get(p, 0) + 2
+    # a local that is mutated in place (xs = []; xs.append(..)) is not an alias of its initial value
+    MUT = {'append', 'extend', 'add', 'update', 'insert', 'remove', 'pop', 'clear', 'discard', 'setdefault', 'sort', 'reverse', 'popitem', 'appendleft'}
+    for n in walk_local(fn.node):
+        if isinstance(n, ast.Call) and isinstance(n.func, ast.Attribute) and n.func.attr in MUT and isinstance(n.func.value, ast.Name):
+            counts[n.func.value.id] = counts.get(n.func.value.id, 0) + 2
+        elif isinstance(n, (ast.Subscript,)) and isinstance(n.ctx, (ast.Store, ast.Del)) and isinstance(n.value, ast.Name):
+            counts[n.value.id] = counts.get(n.value.id, 0) + 2
+        elif isinstance(n, ast.AugAssign) and isinstance(n.target, (ast.Subscript, ast.Attribute)) and isinstance(n.target.value, ast.Name) and \
+                isinstance(n.target, ast.Subscript):
+            counts[n.target.value.id] = counts.get(n.target.value.id, 0) + 2
     res = {k: v for k, v in vals.items() if counts.get(k) == 1}
     fn._single_assign = res  # type: ignore[attr-defined]
     return res
